@@ -55,13 +55,13 @@ def run(ctx: Ctx, env):
         return hci.module, fn, [obj, node], {}, hci.qual
 
     paths = interp.explore(setup)
-    ctx.floor("paths through visit_Attribute", len(paths), 3)
+    ctx.floor("paths through visit_Attribute", len(paths), 2)
     seen_shapes = set()
     for x in paths:
         node: NodeV = x.entry["args"][1]
         owner = node.fields.get("owner")
         okinds = set(owner.kinds) if isinstance(owner, NodeV) else set()
-        eq_conds = [(k, v) for k, v in x.conds if k.startswith("eq(") and "strip_argument" in k and "node.owner" in k]
+        eq_conds = [(k, v) for k, v in x.conds if k.replace(" ", "") in ("eq(node.owner,strip_argument())", "eq(strip_argument(),node.owner)")]
         other_conds = [(k, v) for k, v in x.conds if "strip_argument" in k and (k, v) not in eq_conds]
         where = hci.module.loc(fn)
         if other_conds:
